@@ -1,7 +1,7 @@
 //! Enumerator of shadowing layouts (shared by C01, C04, C05, C08, C20).
 //!
 //! A layout is a directory chain ws/, ws/a/, ws/a/b/ (depth 1..3) with the *using file* at the
-//! deepest level.  For every ancestor level the conftest is one of seven provider kinds; the
+//! deepest level.  For every ancestor level the conftest is one of eight provider kinds (the eighth imports a same-named plain object); the
 //! using file defines the name 0, 1 or 2 times; five distractors (definitions that must never be
 //! returned) are switched on or off independently.
 
@@ -17,8 +17,10 @@ pub enum Conf {
     Star,
     Explicit,
     Plugins,
+    /// `from h import fx` where `fx` in h is a plain object, not a fixture: provides nothing
+    ExplicitPlain,
 }
-pub const CONF_ALL: [Conf; 7] = [
+pub const CONF_ALL: [Conf; 8] = [
     Conf::Absent,
     Conf::Empty,
     Conf::Defines,
@@ -26,6 +28,7 @@ pub const CONF_ALL: [Conf; 7] = [
     Conf::Star,
     Conf::Explicit,
     Conf::Plugins,
+    Conf::ExplicitPlain,
 ];
 
 #[derive(Clone, Debug, PartialEq, Eq, Hash, Serialize, Deserialize)]
@@ -96,6 +99,16 @@ impl Layout {
                     files.push(FileSpec::new(
                         &format!("{}{}.py", dir, helper),
                         vec![fx(self.rich, &format!("he{}", k), &[])],
+                    ));
+                }
+                Conf::ExplicitPlain => {
+                    files.push(conf(vec![Item::ExplicitImport {
+                        module: helper.clone(),
+                        names: vec!["fx".into()],
+                    }]));
+                    files.push(FileSpec::new(
+                        &format!("{}{}.py", dir, helper),
+                        vec![Item::Raw("fx = object()".into())],
                     ));
                 }
                 Conf::Plugins => {
